@@ -34,7 +34,7 @@ TECHNIQUE = "reference-model runtime monitor (visibility from unweighted respond
 DESIGN_REF = "DESIGN.md 4 C09"
 REQUIRED_REACH = ["visible_rows", "visible_cols", "subtotal_visibility", "shape_and_labels",
                   "collator:SortByValueCollator", "class:sorted_by_value_with_prune",
-                  "strand_visible", "class:pruned_element", "class:weighted_only_empty",
+                  "strand_visible", "class:pruned_element", "class:pruned_and_smoothed", "class:weighted_only_empty",
                   "class:answered_never_selected", "class:subtotals_pruned",
                   "class:pair=MRxMR", "class:pair=CATxMR", "class:pair=MRxCAT"]
 BATCH = 40
@@ -110,6 +110,11 @@ def make_case(unit):
                                                 "weighted_base"])
                 dd["order"] = order
                 res_kind = order.get("type")
+        fv = o.facets[d][1]
+        if getattr(fv, "kind", None) == "cat_date" and gen.stratum("C09", i, "smooth", 2):
+            # a smoother on the date dimension changes values, never which periods are shown
+            dd["smoother"] = {"function": "one_sided_moving_avg",
+                              "window": 2 + gen.stratum("C09", i, "window", 2)}
         if not dd:
             del tr[key]
     return {"template": template, "spec": sim.spec_to_dict(spec), "transforms": tr,
@@ -206,6 +211,8 @@ def check_case(case):
             vis = set(range(o.n_valid(d))) - hidden - (empties if prune else set())
             if prune and empties - hidden:
                 res.classes.append("pruned_element")
+                if tdim.get("smoother"):
+                    res.classes.append("pruned_and_smoothed")
             expected[d] = vis
         for d, od, key, oname in dims:
             tdim = tr.get(key) or {}
